@@ -387,6 +387,34 @@ def _check_shared_history(ctx, case):
     return feats
 
 
+def directed_programs():
+    """Enumerated histories around a mix-in: Base (with / without an invariant), a mix-in root without invariants, a
+    sub-class over both in either order that adds an invariant of every check_on, then a sibling and a grand-child."""
+    import itertools
+
+    def inv(cid, on):
+        return {"cid": cid, "on": on, "lam": False, "selfarg": True, "err": {"form": "default"}}
+
+    def meth(name):
+        params, defaults = G.params_of("method")
+        return {"name": name, "kind": "method", "async": False, "params": params, "defaults": defaults, "decos": [],
+                "body": {"ret": "obj"}}
+
+    for base_on, own_on, order, mix_root in itertools.product((None, "CALL", "SETATTR", "ALL"), ("CALL", "SETATTR", "ALL"),
+                                                            ("base-first", "mixin-first"), ("DBC", "meta")):
+        classes = [
+            {"name": "K0", "bases": [], "root": "DBC", "shape": "plain", "invs": [inv(1, base_on)] if base_on else [],
+             "members": [meth("m")]},
+            {"name": "K1", "bases": [], "root": mix_root, "shape": "plain", "invs": [], "members": [meth("mix")]},
+            {"name": "K2", "bases": [0, 1] if order == "base-first" else [1, 0], "root": "DBC", "shape": "plain",
+             "invs": [inv(2, own_on)], "members": []},
+            {"name": "K3", "bases": [0], "root": "DBC", "shape": "plain", "invs": [], "members": [meth("n")]},
+            {"name": "K4", "bases": [2], "root": "DBC", "shape": "plain", "invs": [inv(3, "CALL")], "members": []},
+        ]
+        yield {"program": {"funcs": [], "classes": classes}, "ops": [], "truth": {},
+               "directed": [base_on, own_on, order, mix_root]}
+
+
 def check_shared_history(ctx, case):
     """Every step of such a history is legitimate use: a step the library rejects is reported, not a harness error."""
     try:
@@ -410,6 +438,10 @@ def run(ctx, tier, seed, shard, nshards):
         ctx.case(case, bool(feats), sample=lambda: {"shared_history": case["shared_history"]})
 
     core.run_hypothesis(test_shared, seed, n * 2)
+    if shard == 0:
+        for case in directed_programs():
+            check_case(ctx, case)
+        ctx.count("directed_mixin_histories", 48)
 
     @given(strategy())
     def test(case):
